@@ -240,12 +240,12 @@ pub fn expected_probes(prop: &str) -> &'static [&'static str] {
         "C06" => &["followup-equal", "rejected-delivery-history-checked", "stopped-at-identity-point", "batch-member-histories-checked"],
         "C07" => &["batch-rng-used", "scenario:empty-batch:all-valid", "scenario:all-honest:all-valid", "scenario:duplicate-delivery:all-valid", "scenario:plus-minus-d:a:some-invalid", "scenario:plus-minus-d:b:some-invalid", "scenario:zero-sum-triple:some-invalid", "scenario:affine-weight-cancelling-triple:some-invalid", "scenario:quadratic-weight-cancelling-quadruple:some-invalid", "scenario:misdelivered-member:some-invalid", "scenario:one-bad-witness:some-invalid", "scenario:one-tampered:some-invalid"],
         "C08" => &["garbage-rejected-at-decoding", "garbage-decoded", "stream-read-fault-fired", "stream-write-fault-fired"],
-        "C09" => &["keying-ok", "independence-checked", "attribution-total-and-injective", "opened-against-refprover", "statement-fixed-component-equal(allowed)"],
+        "C09" => &["keying-ok", "independence-checked", "attribution-total-and-injective", "opened-against-refprover", "statement-fixed-component-equal(allowed)", "large-circuit-sampled-attribution", "large-circuit-opened-against-refprover"],
         "C10" => &["agree-accept", "agree-reject", "degenerate-identity-cross-term"],
         "C11" => &["bad-point:no-point-for-coordinate", "bad-point:both-flag-bits", "bad-point:small-order-point", "bad-point:P+T", "bad-point:cancelling-pairs"],
         "C12" => &["increase-below-or-at-current(no-op)", "view-n0-m>=2", "pinned-digest-match"],
         "C16" => &["missing-assignment-reported", "full-session-phase2-lockstep", "phase2-missing-assignment-surfaces-from-prove", "pending-crossed-phase-boundary", "pair-closed-after-other-gates", "gate-while-pending"],
-        "C17" => &["capacity==threshold", "capacity==threshold-1", "proof-bytes-equal-across-slack"],
+        "C17" => &["capacity==threshold", "capacity==threshold-1", "proof-bytes-equal-across-slack", "store-with-later-smaller-request"],
         "C18" => &["wrong-statement-rejected", "fresh-session-follows-recorded-schedule", "generator-digests-reproduced"],
         _ => &[],
     }
